@@ -151,8 +151,18 @@ type c16Doc struct {
 func c16Base(r *gen.R) config.ServerConfig {
 	var c config.ServerConfig
 	ns := 1 + r.Intn(3)
+	// the document lists the scopes in an order of its own (not sorted by name), and the second one
+	// overlaps the first: the order of the list decides who serves 10.0.x.y
+	names := []string{"s0"}
+	if ns >= 2 {
+		names = []string{"s1", "s0", "s2"}[:ns]
+	}
 	for k := 0; k < ns; k++ {
-		c.Secrets = append(c.Secrets, refsrv.Scope(fmt.Sprintf("s%d", k), fmt.Sprintf("key%d", k), fmt.Sprintf("10.%d.0.0/16", k)))
+		prefix := fmt.Sprintf("10.%d.0.0/16", k)
+		if k == 1 {
+			prefix = "10.0.0.0/8"
+		}
+		c.Secrets = append(c.Secrets, refsrv.Scope(names[k], fmt.Sprintf("key%d", k), prefix))
 	}
 	nu := 2 + r.Intn(5)
 	grp := config.Group{Name: "ops", Commands: []config.Command{{Name: "show", Match: []string{"version"}, Action: config.PERMIT}}, Authenticator: refsrv.Bcrypt("grp-pw"), Accounter: refsrv.FileAccounter()}
